@@ -16,7 +16,7 @@ PROPS = {
     "C01": {
         "lean_modules": ["RosedVerif.Props.C01"],
         "theorems": "auto",
-        "groups": ["G-split", "G-probe", "A-chars"],
+        "groups": ["G-split", "G-probe", "A-chars", "H-hist"],
         "oracle": True,
         "tie": "tables regenerated from source (translator, validated by execution on 1.25M rune values); "
                "rule chain regenerated as data (Gen/Rules.lean) and proved equal to the model's chain (C01_rule_chain); model also tied by G-split (exhaustive class strings + random)",
